@@ -131,7 +131,13 @@ def gen_cases(tier, seed):
                 e["uid"], e["gid"] = r.choice([(1000, 1000), (0, 4321), (12345, 0), (65534, 65534)])
             spec.append(e)
         spec.append({"p": "src/lnk", "k": "l", "target": "m0"})
-        flags = r.choice([[], [], ["--ownership"], ["--no-perms"], ["--no-timestamps"], ["--ownership", "--fsync"], ["-L"], ["--backup", "numbered"]])
+        # links owned by somebody else whose text, seen from the destination, leads to a bystander or back to a source
+        spec += [{"p": "by", "k": "d"}, F("by/stander", 50, 77, mode=0o4755), F("by/other", 5, 78, mode=0o2755, uid=0, gid=0),
+                 {"p": "src/labs", "k": "l", "target": "@ROOT@/by/stander", "uid": 1234, "gid": 1234},
+                 {"p": "src/lrel", "k": "l", "target": "../../by/other", "uid": 4321, "gid": 1234},
+                 {"p": "src/lsrc", "k": "l", "target": "@ROOT@/src/m0", "uid": 1234, "gid": 4321}]
+        flags = r.choice([[], ["--ownership"], ["--ownership"], ["--no-perms"], ["--no-timestamps"], ["--ownership", "--fsync"], ["-L"], ["--backup", "numbered"],
+                          ["--ownership", "--no-perms"]])
         yield {"family": "rich", "spec": spec, "args": ["--driver", ["parfile", "parblock"][i % 2], "-w", "3", "--block-size", "16KB"] + flags + ["-r", "src", "dst"],
                "driver": ["parfile", "parblock"][i % 2], "flags": flags, "fs": "ext4", "fault": r.random() < 0.3}
     # families 2 and 3: baseline cases whose sites are enumerated at run time
@@ -279,7 +285,7 @@ def run_sites(case, res):
 def run_rich(case, res):
     with core.Sandbox(case["fs"], "c03") as sb:
         root = sb.root
-        tree.materialize(root, case["spec"])
+        tree.materialize(root, subst(case["spec"], root))
         pre = tree.snapshot(root)
         plan = {"log_mode": "none"}
         if case["fault"]:
@@ -290,7 +296,7 @@ def run_rich(case, res):
             res["inconc"].append("run-" + run.verdict)
             return
         post = tree.snapshot(root)
-        protected = {p for p in pre if p == "src" or p.startswith("src/")}
+        protected = {p for p in pre if p == "src" or p.startswith("src/") or p == "by" or p.startswith("by/")}
         for frag, msg in protected_diff(pre, post, protected, []):
             res["viol"].append({"sig": "rich:%s:%s" % (",".join(case["flags"]) or "default", frag),
                                 "what": "%s; exit=%s driver=%s args=%s" % (msg, run.status, case["driver"], " ".join(case["args"]))})
